@@ -63,7 +63,7 @@ type Action struct {
 	// Op: "start", "stop", "wait", "drop" (the proxy closes an established session),
 	// "restart" (Stop immediately followed by Start), "probe", "bulkstop" / "bulkdrop" (the
 	// plugin issues an UpdateContainers of KB kilobytes from a goroutine of its own - with
-	// Stall the runtime end has stopped reading - and WaitMs later the stub is stopped / the
+	// Stall the runtime end has stopped reading - and WaitMs after its first bytes left the stub the stub is stopped / the
 	// proxy closes the connection, i.e. while the stub is writing a large frame).
 	Op     string  `json:"op"`
 	Script *Script `json:"script,omitempty"` // start, restart
@@ -769,6 +769,7 @@ func (x *exec) doBulk(a Action) *failure {
 	}
 	done := make(chan error, 1)
 	x.bulks = append(x.bulks, done)
+	b0 := lk.bytes[s2r].Load()
 	go func() {
 		defer func() {
 			if p := recover(); p != nil {
@@ -778,6 +779,12 @@ func (x *exec) doBulk(a Action) *failure {
 		_, err := x.st.UpdateContainers([]*api.ContainerUpdate{{ContainerId: strings.Repeat("x", kb<<10)}})
 		done <- err
 	}()
+	// WaitMs counts from the moment the first bytes of the request reach the proxy (a reader
+	// that was already parked when the stall began still takes one chunk); building a 3 MB
+	// message takes a variable time
+	for dl := time.Now().Add(300 * time.Millisecond); lk.bytes[s2r].Load() == b0 && time.Now().Before(dl); {
+		time.Sleep(100 * time.Microsecond)
+	}
 	time.Sleep(time.Duration(a.WaitMs) * time.Millisecond)
 	x.rec(a.Op, t0, "UpdateContainers of %d KB under way (stalled=%v)", kb, a.Stall)
 	if stop {
@@ -1124,7 +1131,7 @@ func execOnce(c C16Case) (out ev.Outcome, f *failure) {
 	out.History = histOut{Steps: x.hist, Stacks: x.stacks}
 	if os.Getenv("VERIF_DEV") != "" {
 		for _, s := range x.hist {
-			if s.Ms > 100 {
+			if s.Ms > 100 || os.Getenv("VERIF_DEV") == "2" {
 				fmt.Fprintf(os.Stderr, "SLOW %+v\n   case %s\n", s, ev.Snapshot(c))
 			}
 		}
